@@ -707,13 +707,20 @@ class Machine:
     def is_trimmed(self, f, x, r):
         return self.impl_span(f, x) == r.hull() and (r.hull() is not None or x.start is None)
 
-    def observe(self, f, x):
+    def observe(self, f, x, hull=None):
+        """every observed cell of x, read through the public span reader over the fixed window widened to the
+        series' own stored span and to the reference's hull (a keyword shift by a whole year of a monthly or daily
+        series leaves any fixed window after two steps)"""
         nv = x.num_variants
-        data = x.get_data_from_until((per(f, LO), per(f, HI)))
+        lo, hi = LO, HI
+        for h in (hull, self.impl_span(f, x)):
+            if h is not None:
+                lo, hi = min(lo, h[0] - 1), max(hi, h[1] + 1)
+        data = x.get_data_from_until((per(f, lo), per(f, hi)))
         out = {}
         rows, cols = np.nonzero(~np.isnan(data))
         for i, v in zip(rows.tolist(), cols.tolist()):
-            out[(i + LO, v)] = float(data[i, v])
+            out[(i + lo, v)] = float(data[i, v])
         return nv, out
 
     def canon(self, f, x):
@@ -776,7 +783,7 @@ class Machine:
             bad("result_type", repr(type(y)))
             return None
         # (1) full-map equality
-        nv, obs = self.observe(f, y)
+        nv, obs = self.observe(f, y, exp.hull())
         if nv != exp.nv or not self.same(obs, exp.d):
             diff = sorted(set(obs.items()) ^ set(exp.d.items()))[:6]
             bad("map", "nv impl %d ref %d; differing cells %r" % (nv, exp.nv, diff))
